@@ -300,12 +300,13 @@ func c07SeqString(seq []c07Step) string {
 	return strings.Join(p, "; ")
 }
 
-// c07Sequences returns every sequence of length 1..maxLen (gap of the first step fixed to 0).
-func c07Sequences(maxLen int) [][]c07Step {
+// c07Sequences returns every sequence of length 1..maxLen over the given gaps (gap of the first
+// step fixed to 0).
+func c07Sequences(maxLen int, gaps []time.Duration) [][]c07Step {
 	var steps []c07Step
 	for t := 0; t < 2; t++ {
 		for k := c07Kind(0); k < c07NumKinds; k++ {
-			for _, g := range []time.Duration{0, 2 * time.Second} {
+			for _, g := range gaps {
 				steps = append(steps, c07Step{t, k, g})
 			}
 		}
@@ -783,14 +784,63 @@ func c07Enabled(cfg c07Config, seq []c07Step) bool {
 	return true
 }
 
+// c07CrashLoops returns the steady crash loops of a configuration with a positive-window restart
+// budget: every sequence of exactly three faults that all resolve to the Restart directive, the
+// second and third one arriving 300ms or 700ms after the previous step (300ms < backoff window
+// 400ms, 700ms < retry window 1s, so consecutive faults are inside the window while the streak as a
+// whole outlasts it: "the fault-free period after which the consecutive failure counter resets" is
+// measured from the LATEST fault).
+// allKinds == false (quick tier): only the first failure kind that resolves to Restart is used.
+func c07CrashLoops(cfg c07Config, allKinds bool) [][]c07Step {
+	if !cfg.retry.set || cfg.retry.timeout <= 0 {
+		return nil
+	}
+	var faults []c07Step
+	for t := 0; t < 2; t++ {
+		for k := c07Kind(0); k < c07NumKinds; k++ {
+			if d, ok := cfg.lookup(k); ok && d == supervisor.RestartDirective {
+				faults = append(faults, c07Step{target: t, kind: k})
+				if !allKinds {
+					break
+				}
+			}
+		}
+	}
+	gaps := []time.Duration{300 * time.Millisecond, 700 * time.Millisecond}
+	var out [][]c07Step
+	for _, a := range faults {
+		for _, b := range faults {
+			for _, gb := range gaps {
+				for _, c := range faults {
+					for _, gc := range gaps {
+						b2, c2 := b, c
+						b2.gap, c2.gap = gb, gc
+						out = append(out, []c07Step{a, b2, c2})
+					}
+				}
+			}
+		}
+	}
+	return out
+}
+
 func TestVerifC07(t *testing.T) {
 	defer vsched.Finish(t)
 	maxLen := vsched.Pick(2, 3)
+	gaps := vsched.Pick([]time.Duration{0, 2 * time.Second}, []time.Duration{0, 700 * time.Millisecond, 2 * time.Second})
 	cfgs := c07Configs()
-	seqs := c07Sequences(maxLen)
+	seqs := c07Sequences(maxLen, gaps)
+	run := func(e *vsched.Enum, cfg c07Config, seq []c07Step) {
+		in := cfg.String() + " :: " + c07SeqString(seq)
+		sig, detail, trace, steps := c07Run(t, cfg, seq)
+		if sig != "" {
+			e.Fail(sig, in, "%s\n  config: %s\n  faults: %s\n  trace: %s", detail, cfg, c07SeqString(seq), trace)
+		}
+		e.Case(in, trace, steps+1, len(seq) >= 2)
+	}
 	e := vsched.NewEnum("supervision-config-x-fault-sequences", map[string]any{
 		"configs": len(cfgs), "max_sequence_len": maxLen, "sequences_before_pruning": len(seqs),
-		"family": "G -> P -> {C1,C2}", "faults": "Err(c07ErrA) | Err(c07ErrB) | panic(error)", "gaps": "0 | 2s",
+		"family": "G -> P -> {C1,C2}", "faults": "Err(c07ErrA) | Err(c07ErrB) | panic(error)", "gaps": fmt.Sprint(gaps),
 	})
 	for _, cfg := range cfgs {
 		for _, seq := range seqs {
@@ -800,13 +850,25 @@ func TestVerifC07(t *testing.T) {
 			if !e.Mine() {
 				continue
 			}
-			in := cfg.String() + " :: " + c07SeqString(seq)
-			sig, detail, trace, steps := c07Run(t, cfg, seq)
-			if sig != "" {
-				e.Fail(sig, in, "%s\n  config: %s\n  faults: %s\n  trace: %s", detail, cfg, c07SeqString(seq), trace)
-			}
-			e.Case(in, trace, steps+1, len(seq) >= 2)
+			run(e, cfg, seq)
 		}
 	}
 	e.Done()
+
+	e2 := vsched.NewEnum("restart-budget-crash-loops", map[string]any{
+		"configs": "every configuration with WithRetry(n>0, 1s)", "sequence_len": 3, "gaps": "300ms | 700ms (second and third fault)",
+		"faults": vsched.Pick("C1/C2 x the first failure kind that resolves to the Restart directive", "C1/C2 x every failure kind that resolves to the Restart directive"),
+	})
+	for _, cfg := range cfgs {
+		for _, seq := range c07CrashLoops(cfg, vsched.Pick(false, true)) {
+			if !c07Enabled(cfg, seq) {
+				continue
+			}
+			if !e2.Mine() {
+				continue
+			}
+			run(e2, cfg, seq)
+		}
+	}
+	e2.Done()
 }
